@@ -94,7 +94,7 @@ def run(ctx):
     k = 0
     for rep in range(40 if thorough else 8):
         for form in ("to_dict", "to_list", "iter_to_dict", "iter_to_list"):
-            for via in ("plss", "tractlist"):
+            for via in ("plss", "tractlist", "tract"):
                 attrs = pick_attrs(ctx.rng, full=(rep == 0), with_unknown=(rep % 2 == 1))
                 cases.append({"id": "r%d" % k, "kind": "c19_records", "abs": {},
                               "args": {"attrs": attrs, "form": form, "via": via, "d": ctx.rng.choice([1, 2]),
